@@ -152,9 +152,22 @@ pub struct LazyMulti {
     pub uses: Vec<LazyUse>,
 }
 
+#[derive(Clone, Copy, Debug, PartialEq, Eq)]
+pub enum Target {
+    Heap,
+    Guard,
+    Stack,
+    StackN,
+}
+
 #[derive(Clone, Debug, PartialEq, Eq)]
 pub enum Op {
     LazyMulti(LazyMulti),
+    /// drive a non-consuming iterator by an explicit next/next_back script (true = back);
+    /// `clone_at`: clone the (shared) iterator before that step and drain the clone at the end
+    IterScript { v: usize, how: IterHow, script: Vec<bool>, clone_at: Option<usize> },
+    /// `clone_empty_in(target backend)`, move every element over and back (see rig)
+    CloneEmptyIn { v: usize, target: Target },
     Push { v: usize, src: Src },
     Insert { v: usize, at: usize, src: Src },
     Pop { v: usize, sink: Sink },
@@ -253,6 +266,10 @@ impl fmt::Display for Op {
     fn fmt(&self, f: &mut fmt::Formatter<'_>) -> fmt::Result {
         match self {
             Op::LazyMulti(m) => write!(f, "lazy^{}({:?} v{}[{}])x{:?}", m.depth, m.kind, m.w, m.j, m.uses),
+            Op::IterScript { v, how, script, clone_at } => write!(
+                f, "v{v}.{how:?}|{}|clone@{clone_at:?}", script.iter().map(|b| if *b { 'B' } else { 'F' }).collect::<String>()
+            ),
+            Op::CloneEmptyIn { v, target } => write!(f, "v{v}.clone_empty_in({target:?})"),
             Op::Push { v, src } => write!(f, "v{v}.push({src})"),
             Op::Insert { v, at, src } => write!(f, "v{v}.insert({},{src})", idstr(*at as u64)),
             Op::Pop { v, sink } => write!(f, "v{v}.pop()->{sink}"),
